@@ -10,6 +10,22 @@
 #include "EbObject.h"
 #include "EbMalloc.h"
 #if defined(U16_SRM)
+#ifdef U16_CALLOC_MODEL
+/* trusted library model (measured: the built-in calloc gives a pointer array whose element count is read through a
+ * pointer an UNBOUNDED byte-array object, and the array post-processing then exhausts 30 GB): same semantics, but the
+ * small pointer-array sizes are case-split so that each branch allocates an object of constant size */
+void *calloc(size_t n, size_t s) {
+    size_t t = n * s;
+    __CPROVER_assert(s == 0 || t / s == n, "calloc: element count times size does not overflow");
+    if (t == 8) { uint64_t *q = malloc(8); if (q) q[0] = 0; return q; }
+    if (t == 16) { uint64_t *q = malloc(16); if (q) { q[0] = 0; q[1] = 0; } return q; }
+    if (t == 24) { uint64_t *q = malloc(24); if (q) { q[0] = 0; q[1] = 0; q[2] = 0; } return q; }
+    if (t == 32) { uint64_t *q = malloc(32); if (q) { q[0] = 0; q[1] = 0; q[2] = 0; q[3] = 0; } return q; }
+    void *p = malloc(t);
+    if (p) memset(p, 0, t);
+    return p;
+}
+#endif
 #include "EbSystemResourceManager.h"
 #include "Source/Lib/Common/Codec/EbSystemResourceManager.c"
 
@@ -25,6 +41,13 @@ EbErrorType stub_cb_ctor(EbCircularBuffer *b, uint32_t n) {
     b->dctor = svt_circular_buffer_dctor; b->buffer_total_count = n;
     b->array_ptr = malloc(sizeof(EbPtr));
     if (!b->array_ptr) return EB_ErrorInsufficientResources;
+    return EB_ErrorNone;
+}
+EbErrorType stub_fifo_ctor(EbFifo *f, uint32_t a, uint32_t b, EbObjectWrapper *first, EbObjectWrapper *last, EbMuxingQueue *q) {
+    (void)a; (void)b;
+    f->dctor = svt_fifo_dctor; f->counting_semaphore = NULL; f->first_ptr = first; f->last_ptr = last; f->queue_ptr = q; f->quit_signal = EB_FALSE;
+    f->lockout_mutex = svt_create_mutex();
+    if (!f->lockout_mutex) return EB_ErrorInsufficientResources;
     return EB_ErrorNone;
 }
 void stub_mq_dctor(EbPtr p) { EbMuxingQueue *q = (EbMuxingQueue *)p; if (q->lockout_mutex) svt_destroy_mutex(q->lockout_mutex); }
@@ -73,6 +96,9 @@ void h_cb(void) {
 }
 void h_mq(void) {
     V_NONDET(uint32_t, n); V_NONDET(uint32_t, p);
+#ifdef MQ_CN   /* one unit per (object count, process count): constant allocation sizes, symbolic failure subset */
+    n = MQ_CN; p = MQ_CP;
+#endif
     V_ASSUME(n >= 1 && n <= 2 && p >= 1 && p <= MQ_MAXP);
     EbMuxingQueue *q = 0;
     EbErrorType e = new_mq(&q, n, p);
@@ -90,6 +116,9 @@ void h_mq(void) {
 }
 void h_res(void) {
     V_NONDET(uint32_t, n); V_NONDET(uint32_t, p); V_NONDET(uint32_t, c);
+#ifdef RES_CN
+    n = RES_CN; p = 1; c = RES_CC;
+#endif
     V_ASSUME(n >= 1 && n <= RES_MAXN && p >= 1 && p <= 1 && c <= 1);
     EbSystemResource *r = 0;
     EbErrorType e = new_res(&r, n, p, c);
